@@ -30,6 +30,8 @@ enum { R = 1, Wm = 2 };
 //   en|dis|del -1 <dt> <target>                                      posted to the loop
 //   ten|tdis|tdel -1 <dt> <target>                                   performed by a loop timer that expires at that time (so it can
 //                                                                    run in the same pass as descriptor callbacks, before them)
+//   reinit <ctx|-1> <nth|dt> <target> <mask> <oneshot>                initialize() again on the same descriptor with another mask/mode
+//                                                                    (refused while the event is enabled; the model follows the answer)
 //   en|dis|del|rd|noread <ctx> <nth> <target|n>                      inside the callback of event ctx on its nth invocation
 void generate(sim::Rng &r, uint64_t seed, const std::string &tier, sim::Plan &p) {
   bool thorough = tier == "thorough";
@@ -61,7 +63,8 @@ void generate(sim::Rng &r, uint64_t seed, const std::string &tier, sim::Plan &p)
       else if (x < 68 && !samefd_only) { op.kind = "closepeer"; op.a = {-1, dt, fd, 0}; }
       else if (x < 80 && !samefd_only) { op.kind = "en"; op.a = {-1, dt, (long)r.below((uint64_t)nev)}; }
       else if (x < 90 && !samefd_only) { op.kind = "dis"; op.a = {-1, dt, (long)r.below((uint64_t)nev)}; }
-      else if (x < 95 && !samefd_only) { op.kind = "del"; op.a = {-1, dt, (long)r.below((uint64_t)nev)}; }
+      else if (x < 93 && !samefd_only) { op.kind = "del"; op.a = {-1, dt, (long)r.below((uint64_t)nev)}; }
+      else if (x < 95 && !samefd_only) { op.kind = "reinit"; op.a = {-1, dt, (long)r.below((uint64_t)nev), r.range(1, 3), r.chance(300) ? 1 : 0}; }
       else if (x < 98 && !samefd_only) { op.kind = r.chance(500) ? "tdel" : r.chance(500) ? "tdis" : "ten"; op.a = {-1, dt, (long)r.below((uint64_t)nev)}; }
       else { op.kind = "wr"; op.a = {-1, dt, fd, 1}; }
       if (!samefd_only && r.chance(300)) { op.fseed = r.next() >> 2; op.fmask = sim::F_EVENT_SUBSET | (r.chance(300) ? sim::F_WAIT_EINTR : 0); }
@@ -77,7 +80,8 @@ void generate(sim::Rng &r, uint64_t seed, const std::string &tier, sim::Plan &p)
       unsigned x = (unsigned)r.below(100);
       if (x < 25) { op.kind = "dis"; op.a = {ctx, nth, target}; }
       else if (x < 45) { op.kind = "en"; op.a = {ctx, nth, target}; }
-      else if (x < 70) { op.kind = "del"; op.a = {ctx, nth, target}; }
+      else if (x < 64) { op.kind = "del"; op.a = {ctx, nth, target}; }
+      else if (x < 70) { op.kind = "reinit"; op.a = {ctx, nth, target, r.range(1, 3), r.chance(300) ? 1 : 0}; }
       else if (x < 88) { op.kind = "rd"; op.a = {ctx, nth, r.range(1, 3)}; }
       else { op.kind = "noread"; op.a = {ctx, nth, 0}; }
     }
@@ -146,6 +150,20 @@ void do_disable(int t) {
   m.ev->disable();
   m.enabled = false;
   sim::trace("disable ev%d", t);
+}
+void do_reinit(int t, int mask, bool oneshot) {
+  EvModel &m = W.m[t];
+  if (!m.exists || m.pending_delete) return;
+  short tm = 0;
+  if (mask & R) tm |= FdEvent::kReadEvent;
+  if (mask & Wm) tm |= FdEvent::kWriteEvent;
+  bool was = m.ev->isEnabled();
+  bool ok = m.ev->initialize(W.a[m.fdidx], tm, oneshot ? Event::Mode::kOneshot : Event::Mode::kPersist);
+  sim::trace("reinit ev%d mask=%d oneshot=%d -> %d (enabled=%d)", t, mask, (int)oneshot, (int)ok, (int)m.enabled);
+  sim::probe(m.enabled ? "reinit_while_enabled" : "reinit_while_disabled");
+  // whatever the answer, what the event does afterwards must agree with it: accepted = the new mask and mode are in force
+  if (ok) { m.mask = mask; m.oneshot = oneshot; }
+  if (m.ev->isEnabled() != was) sim::violation("C03/isenabled-after-initialize", "initialize() changed what isEnabled() reports");
 }
 void do_delete(int t, int running) {
   EvModel &m = W.m[t];
@@ -220,6 +238,7 @@ void on_event(int e, short events) {
       if (op.kind == "en") do_enable(t);
       else if (op.kind == "dis") do_disable(t);
       else if (op.kind == "del") do_delete(t, e);
+      else if (op.kind == "reinit") do_reinit(t, (int)std::max(1L, std::min(3L, op.arg(3))), op.arg(4) != 0);
     }
   }
   // default behaviour keeps the scenario finite under level-triggered readiness
@@ -300,11 +319,12 @@ RunResult run_once(const sim::Plan &plan, int backend) {
       sim::fault_scope(pop->fseed, pop->fmask);
       sim::relevant();
       const std::string &k = pop->kind;
-      if (k == "en" || k == "dis" || k == "del") {
+      if (k == "en" || k == "dis" || k == "del" || k == "reinit") {
         W.loop->runInLoop([pop] {
           int tg = (int)(((pop->arg(2) % W.nev) + W.nev) % W.nev);
           if (pop->kind == "en") do_enable(tg);
           else if (pop->kind == "dis") do_disable(tg);
+          else if (pop->kind == "reinit") do_reinit(tg, (int)std::max(1L, std::min(3L, pop->arg(3))), pop->arg(4) != 0);
           else do_delete(tg, -1);
         }, "c03.op");
         return;
@@ -396,8 +416,8 @@ bool order_free(const sim::Plan &plan) {
     if (op.fmask) return false;                       // subset/EINTR faults change the pass structure of one back end only
     // operations posted from outside arrive through the loop's own wake-up descriptor: their effect depends on
     // whether that descriptor is served before or after the others in the pass, so such plans are not order-free
-    if (op.arg(0) < 0 && (op.kind == "en" || op.kind == "dis" || op.kind == "del" || op.kind == "ten" || op.kind == "tdis" || op.kind == "tdel")) return false;
-    if (op.arg(0) >= 0 && (op.kind == "en" || op.kind == "dis" || op.kind == "del")) {
+    if (op.arg(0) < 0 && (op.kind == "en" || op.kind == "dis" || op.kind == "del" || op.kind == "reinit" || op.kind == "ten" || op.kind == "tdis" || op.kind == "tdel")) return false;
+    if (op.arg(0) >= 0 && (op.kind == "en" || op.kind == "dis" || op.kind == "del" || op.kind == "reinit")) {
       long ctx = op.arg(0) % nev, tg = ((op.arg(2) % nev) + nev) % nev;
       if (evfd[(size_t)ctx] != evfd[(size_t)tg]) return false;
     }
